@@ -413,6 +413,11 @@ def run_dataset(case, ctx):
                      f"{iface}: asked {k} from a repeating stream, got "
                      f"{len(got)}")
         allowed = allowed_opens(iface, fmt, k, eps, shuffle, fp)
+        if proc and iface == "tfdata":
+            # the transformation is mapped with num_parallel_calls=parallelism
+            # (a configured value, default: the number of processors), so
+            # that many more elements may be in flight
+            allowed += math.ceil((os.cpu_count() or 1) / eps) + 2
         if opens > allowed:
             ctx.fail(
                 "bounded", ("shard-opens-exceed-bound", iface),
